@@ -54,9 +54,12 @@ def gen_content(rng):
         return rng.choice(('', b'', 0, -5, ' ', '\x00'))
     if r < 0.2:
         return int(gen.text(rng, 'numeric', rng.randint(1, 40)).lstrip('0') or '0') * rng.choice((1, 1, 1, -1))
-    mode = rng.choice(('numeric', 'alphanumeric', 'byte', 'byte', 'kanji', 'hanzi', 'uni'))
+    mode = rng.choice(('numeric', 'alphanumeric', 'byte', 'byte', 'kanji', 'hanzi', 'uni', 'near'))
     n = max(1, int(rng.paretovariate(0.8))) if rng.random() < 0.8 else rng.randint(1, 200)
     n = min(n, 400)
+    if mode == 'near':
+        c = gen.near_text(rng, n)
+        return c.encode('latin1') if rng.random() < 0.25 else c
     if mode == 'uni':
         return ''.join(rng.choice(gen.UNI + gen.ASCII) for _ in range(n))
     c = gen.text(rng, mode, n)
